@@ -243,3 +243,90 @@ func init() {
 		MinReach: []string{"end"}, TVVectors: 2,
 	})
 }
+
+func c07exprs(tier string) []string {
+	leaves := []string{"a", "b", "#i"}
+	var d1 []string
+	for _, op := range []string{"-", "u2", "+"} {
+		for _, x := range leaves {
+			for _, y := range leaves {
+				d1 = append(d1, "( "+op+" "+x+" "+y+" )")
+			}
+		}
+	}
+	for _, op := range []string{"abs", "u1"} {
+		for _, x := range leaves {
+			d1 = append(d1, "( "+op+" "+x+" )")
+		}
+	}
+	out := append([]string{}, d1...)
+	sub := []string{"( - a b )", "( u2 #i a )", "( abs a )"}
+	var d2 []string
+	for _, op := range []string{"-", "u2"} {
+		for _, e := range sub {
+			for _, x := range leaves {
+				d2 = append(d2, "( "+op+" "+e+" "+x+" )", "( "+op+" "+x+" "+e+" )")
+			}
+			for _, e2 := range sub {
+				d2 = append(d2, "( "+op+" "+e+" "+e2+" )")
+			}
+		}
+	}
+	for _, e := range sub {
+		d2 = append(d2, "( u1 "+e+" )", "( abs "+e+" )")
+	}
+	if tier == "thorough" {
+		out = append(out, d2...)
+		// depth 3 samples
+		out = append(out, "( - ( u2 ( - a #i ) b ) ( abs ( u1 b ) ) )", "( u2 #i ( - ( u2 a b ) ( u1 #i ) ) )", "( - ( - ( - a b ) #i ) ( - #i ( - b a ) ) )")
+	} else {
+		for k := 0; k < len(d2); k += 4 {
+			out = append(out, d2[k])
+		}
+	}
+	out = append(out,
+		"( - a b #i )", "( u2 a #i b )", "( u2 #i a b )", "( - a b a b )", "( u2 ( - a b ) #i b )", "( + a ( - a b ) #i )",
+		"( - f g )", "( - #f f )", "( u2 #f f )", "( u2 f #f )", "( + f g f )", "( u1 f )",
+		"( & c d )", "( nand #b c )", "( ! c )", "( | c ( ! d ) )", "( u2 #b c )", "( u2 c #b )", "( int c )",
+		"( + s t )", "( + s #s )", "( + #s s )", "( len s )", "( + s t s )", "( len ( + s #s ) )", "( str s )",
+		"a", "#i", "#s", "f", "s", "#b",
+	)
+	return out
+}
+
+func init() {
+	register(&Property{
+		ID: "C07", Dirs: []string{"root"},
+		Jobs: func(tier string) []Job {
+			var jobs []Job
+			exprs := c07exprs(tier)
+			for k, e := range exprs {
+				dst := "z"
+				if k%5 == 1 {
+					dst = "a"
+				} else if k%5 == 3 {
+					dst = "x"
+				}
+				jobs = append(jobs, Job{Harness: "VX_C07_eval", Params: P("expr", e, "dst", dst, "n", "2", "P", "3")})
+			}
+			for _, tc := range []string{"const-temp-0", "colcol-temp-0", "unary-temp-0", "const-temp-1"} {
+				for _, e := range []string{"( - #i a )", "( u2 ( - a b ) #i )", "( abs ( u1 a ) )", "( - a b #i )", "#i"} {
+					jobs = append(jobs, Job{Harness: "VX_C07_eval", Params: P("expr", e, "dst", "z", "n", "2", "P", "3", "tempcol", tc)})
+				}
+			}
+			for _, c := range []string{"unknown_fn", "unknown_fn1", "unknown_col", "unknown_col_const", "type_mismatch", "type_mismatch_const", "no_args", "malformed_list", "malformed_op", "not_a_list", "nested_error", "nested_error_lhs"} {
+				jobs = append(jobs, Job{Harness: "VX_C07_errors", Params: P("case", c)})
+			}
+			return jobs
+		},
+		Bounds: func(tier string) string {
+			if tier == "thorough" {
+				return "frames of n=2 logical rows over P=3 physical rows in every arrangement; all int expression trees of depth <=2 over {a,b,const} x {-,+,u2,abs,u1} (u1/u2 user-registered uninterpreted functions), depth-3 samples, n-ary Expr up to 4 args, float/bool/string samples, leaf expressions; destinations new/source/other; frames that already hold a *-temp-* column; 12 malformed/ill-typed expressions"
+			}
+			return "frames of n=2 logical rows over P=3 physical rows in every arrangement; all int expression trees of depth 1 and a quarter of depth 2 over {a,b,const} x {-,+,u2,abs,u1} (u1/u2 user-registered uninterpreted functions), n-ary Expr up to 4 args, float/bool/string samples, leaf expressions; destinations new/source/other; frames that already hold a *-temp-* column; 12 malformed/ill-typed expressions"
+		},
+		Assume:   []string{"int division excluded (documented panic on zero)", "user functions are uninterpreted; float arithmetic compared as identical terms"},
+		Outside:  []string{"trees deeper than 3", "more than 2 rows"},
+		MinReach: []string{"end"}, TVVectors: 2,
+	})
+}
